@@ -157,7 +157,11 @@ fn scenario_for(prop: &str) -> Option<Box<dyn coord::Scenario>> {
         "C04" => Some(Box::new(scen::w2::W2Scenario { prop: "C04" })),
         "C05" => Some(Box::new(scen::w2::W2Scenario { prop: "C05" })),
         "C07" => Some(Box::new(scen::crash::CrashScenario)),
+        "C08" => Some(Box::new(scen::pop::PopScenario { prop: "C08" })),
+        "C14" => Some(Box::new(scen::structs::StructScenario)),
         "C15" => Some(Box::new(scen::w3::W3Scenario)),
+        "C18" => Some(Box::new(scen::rl::RlScenario)),
+        "C19" => Some(Box::new(scen::pop::PopScenario { prop: "C19" })),
         _ => None,
     }
 }
